@@ -65,3 +65,9 @@ Definition same_outcome (a : result gen_url) (b : result url) : Prop :=
   | Err e1, Err e2 => e1 = e2
   | _, _ => False
   end.
+
+(** Python's comparisons of tuples of str *)
+Definition tuple_lt (a b : list str) : bool := key_ltb a b.
+Definition tuple_le (a b : list str) : bool := key_ltb a b || key_eqb a b.
+Definition tuple_gt (a b : list str) : bool := key_ltb b a.
+Definition tuple_ge (a b : list str) : bool := key_ltb b a || key_eqb b a.
